@@ -105,4 +105,3 @@ func runCLICheck(spec CheckSpec, tier string, seed int64, verifDir string, start
 	fmt.Printf("%s: binary executions=%d distinct command shapes=%d wall=%.1fs violations=%d known=%d\n", spec.Property, c.runs, len(pairs), wall, nViol, nKnown)
 	return exit
 }
-
